@@ -1,7 +1,7 @@
 CONSTANTS P = 83  A = 1  B = 7  Gx = 0  Gy = 16  N = 79
           SecLens <- LensQ
           Stage = "sec"
-          SecPfx <- AllBytes  SecXs <- AllBytes  SecYs <- AllBytes  SecLongYs = {0, 12, 255} DerPos <- PosNone  DerExt <- One0  DerExtLen = 0
+          SecPfx <- SlicePfx32  SecXs <- AllBytes  SecYs <- AllBytes  SecLongYs = {0, 12, 255} DerPos <- PosNone  DerExt <- One0  DerExtLen = 0
 SPECIFICATION Spec
 INVARIANT NoBad
 CHECK_DEADLOCK FALSE
